@@ -1,98 +1,117 @@
-From Coq Require Import List Arith Lia Bool.
+(* C08 — the streaming loop of estimate_importances_minibatches (outrank/core_ranking.py), model only.
+   No proofs in this file (see StreamProofs.v), so the model still evaluates when a proof breaks.
+
+   A data line is abstracted to (id, number of parsed csv fields); the id is the 1-based position of the line
+   after the header.  The per-batch scorer (compute_batch_ranking -> triplets) and the aggregation
+   (get_grouped_df) are parameters of the loop: the loop's theorems hold for any of them. *)
+From Coq Require Import List Arith NArith Bool.
 Import ListNotations.
 
-Lemma filter_length_le {A} (f : A -> bool) l : length (filter f l) <= length l.
-Proof. induction l as [|a l IH]; cbn; [lia|]. destruct (f a); cbn; lia. Qed.
+Definition line := (N * nat)%type.   (* id, number of parsed fields *)
 
-Section Stream.
-  Variables (B s ncols : nat).
-  Hypothesis HB : 0 < B.
-  Definition line := (nat * nat)%type.   (* id, number of parsed fields *)
-  Definition wf (l : line) := Nat.eqb (snd l) ncols.
+Record cfg := mkcfg {
+  cB : nat;        (* args.minibatch_size *)
+  cs : N;          (* args.subsampling *)
+  cncols : nat;    (* len(column_descriptions) *)
+  ctail : nat      (* the tail rule's constant: a final partial batch is used iff it has MORE rows than this *)
+}.
 
-  Record sst := mk { counter : nat; buf : list line; emitted : list (list line); invalid : nat }.
+(* the constant of the property statement (2**10 in the source; tools/translate_c08.py holds the source to it) *)
+Definition tail_min : nat := 1024.
 
-  (* transcription of the loop body of estimate_importances_minibatches *)
+Definition wf (c : cfg) (l : line) : bool := Nat.eqb (snd l) (cncols c).
+
+Section Loop.
+  Context {row table : Type}.
+  Variable score : list line -> list row.   (* oracle: the triplets compute_batch_ranking returns for a batch *)
+  Variable agg : list row -> table.         (* get_grouped_df *)
+  Variable c : cfg.
+
+  Record sst := mk {
+    counter : N;                    (* line_counter *)
+    buf : list line;                (* line_tmp_storage *)
+    emitted : list (list line);     (* batches handed to compute_batch_ranking so far *)
+    invalid : nat;                  (* invalid_lines *)
+    acc : list row;                 (* importances_df *)
+    ckpts : list table              (* contents of ranking_checkpoint_tmp.tsv after each batch *)
+  }.
+
+  Definition init : sst := mk 0 [] [] 0 [] [].
+
+  (* compute_batch_ranking(line_tmp_storage); importances_df += triplets; line_tmp_storage = [];
+     checkpoint_importances_df(importances_df)     (heuristic <> 'Constant' is assumed) *)
+  Definition flush (st : sst) (b : list line) : sst :=
+    let rows := acc st ++ score b in
+    mk (counter st) [] (emitted st ++ [b]) (invalid st) rows (ckpts st ++ [agg rows]).
+
+  (* one iteration of `for line in file_stream` *)
   Definition sstep (st : sst) (l : line) : sst :=
-    let k := S (counter st) in
-    if negb (Nat.eqb (k mod s) 0) then mk k (buf st) (emitted st) (invalid st)
+    let k := N.succ (counter st) in
+    if negb (N.eqb (N.modulo k (cs c)) 0)
+    then mk k (buf st) (emitted st) (invalid st) (acc st) (ckpts st)                      (* continue *)
     else
-      let st1 := if wf l then mk k (buf st ++ [l]) (emitted st) (invalid st)
-                 else mk k (buf st) (emitted st) (S (invalid st)) in
-      if B <=? length (buf st1) then mk k [] (emitted st1 ++ [buf st1]) (invalid st1) else st1.
+      let st1 := if wf c l
+                 then mk k (buf st ++ [l]) (emitted st) (invalid st) (acc st) (ckpts st)
+                 else mk k (buf st) (emitted st) (S (invalid st)) (acc st) (ckpts st) in
+      if cB c <=? length (buf st1) then flush st1 (buf st1) else st1.
+
   Definition run (st : sst) (lines : list line) : sst := fold_left sstep lines st.
 
-  (* reference semantics *)
-  Definition push (eb : list (list line) * list line) (x : line) :=
-    let bf' := snd eb ++ [x] in
-    if B <=? length bf' then (fst eb ++ [bf'], []) else (fst eb, bf').
-  Fixpoint selected (k0 : nat) (lines : list line) : list line :=
-    match lines with
-    | [] => []
-    | l :: r => if Nat.eqb (S k0 mod s) 0 then l :: selected (S k0) r else selected (S k0) r
-    end.
-  Definition good (k0 : nat) (lines : list line) := filter wf (selected k0 lines).
+  (* after the loop: remaining_batch_size > 2**10 -> line_tmp_storage[:minibatch_size] is one more batch *)
+  Definition finish (st : sst) : sst :=
+    if ctail c <? length (buf st) then flush st (firstn (cB c) (buf st)) else st.
 
-  Theorem run_spec lines : forall st, length (buf st) < B ->
-    let st' := run st lines in
-    (emitted st', buf st') = fold_left push (good (counter st) lines) (emitted st, buf st)
-    /\ counter st' = counter st + length lines
-    /\ invalid st' = invalid st + (length (selected (counter st) lines) - length (good (counter st) lines))
-    /\ length (buf st') < B.
-  Proof.
-    induction lines as [|l r IH]; intros st Hb; cbn zeta.
-    - cbn. repeat split; try lia.
-    - cbn [run fold_left]. change (fold_left sstep r ?x) with (run x r).
-      unfold good. cbn [selected].
-      pose proof (filter_length_le wf (selected (S (counter st)) r)) as Hfl.
-      destruct (Nat.eqb (S (counter st) mod s) 0) eqn:Esel.
-      + cbn [filter]. destruct (wf l) eqn:Ewf.
-        * cbn [fold_left]. unfold push at 2. cbn [fst snd].
-          destruct (B <=? length (buf st ++ [l])) eqn:Efull.
-          -- assert (E1 : sstep st l = mk (S (counter st)) [] (emitted st ++ [buf st ++ [l]]) (invalid st)).
-             { unfold sstep. rewrite Esel, Ewf. cbn [negb buf emitted invalid]. rewrite Efull. reflexivity. }
-             rewrite E1. specialize (IH (mk (S (counter st)) [] (emitted st ++ [buf st ++ [l]]) (invalid st))).
-             cbn [counter buf emitted invalid] in IH. destruct IH as (H1 & H2 & H3 & H4); [cbn; lia|]. unfold good in *.
-             repeat split; try assumption; cbn [length]; lia.
-          -- assert (E1 : sstep st l = mk (S (counter st)) (buf st ++ [l]) (emitted st) (invalid st)).
-             { unfold sstep. rewrite Esel, Ewf. cbn [negb buf emitted invalid]. rewrite Efull. reflexivity. }
-             apply Nat.leb_gt in Efull.
-             rewrite E1. specialize (IH (mk (S (counter st)) (buf st ++ [l]) (emitted st) (invalid st))).
-             cbn [counter buf emitted invalid] in IH. destruct IH as (H1 & H2 & H3 & H4); [exact Efull|]. unfold good in *.
-             repeat split; try assumption; cbn [length]; lia.
-        * assert (E : (B <=? length (buf st)) = false) by (apply Nat.leb_gt; exact Hb).
-          assert (E1 : sstep st l = mk (S (counter st)) (buf st) (emitted st) (S (invalid st))).
-          { unfold sstep. rewrite Esel, Ewf. cbn [negb buf emitted invalid]. rewrite E. reflexivity. }
-          rewrite E1. specialize (IH (mk (S (counter st)) (buf st) (emitted st) (S (invalid st)))).
-          cbn [counter buf emitted invalid] in IH. destruct IH as (H1 & H2 & H3 & H4); [exact Hb|]. unfold good in *.
-          repeat split; try assumption; cbn [length]; lia.
-      + assert (E1 : sstep st l = mk (S (counter st)) (buf st) (emitted st) (invalid st)).
-        { unfold sstep. rewrite Esel. reflexivity. }
-        rewrite E1. specialize (IH (mk (S (counter st)) (buf st) (emitted st) (invalid st))).
-        cbn [counter buf emitted invalid] in IH. destruct IH as (H1 & H2 & H3 & H4); [exact Hb|]. unfold good in *.
-        repeat split; try assumption; cbn [length]; lia.
-  Qed.
+  Definition stream (lines : list line) : sst := finish (run init lines).
 
-  (* the reference semantics really is "consecutive chunks of size B, remainder < B" *)
-  Theorem push_chunks g : forall em bf, length bf < B ->
-    let r := fold_left push g (em, bf) in
-    concat (fst r) ++ snd r = concat em ++ bf ++ g
-    /\ (Forall (fun b => length b = B) em -> Forall (fun b => length b = B) (fst r))
-    /\ length (snd r) < B.
-  Proof.
-    induction g as [|x g IH]; intros em bf Hb; cbn zeta.
-    - cbn. rewrite app_nil_r. auto.
-    - cbn [fold_left].
-      destruct (B <=? length (bf ++ [x])) eqn:E.
-      + assert (Ep : push (em, bf) x = (em ++ [bf ++ [x]], [])) by (unfold push; cbn [fst snd]; rewrite E; reflexivity).
-        rewrite Ep. apply Nat.leb_le in E. rewrite app_length in E. cbn in E.
-        destruct (IH (em ++ [bf ++ [x]]) []) as (H1 & H2 & H3); [cbn; lia|].
-        repeat split; [|intros Hall; apply H2; apply Forall_app; split; [exact Hall|constructor; [rewrite app_length; cbn; lia|constructor]]|exact H3].
-        rewrite H1, concat_app. cbn. rewrite !app_nil_r, <- !app_assoc. reflexivity.
-      + assert (Ep : push (em, bf) x = (em, bf ++ [x])) by (unfold push; cbn [fst snd]; rewrite E; reflexivity).
-        rewrite Ep. apply Nat.leb_gt in E.
-        destruct (IH em (bf ++ [x])) as (H1 & H2 & H3); [exact E|].
-        repeat split; [|exact H2|exact H3]. rewrite H1, <- !app_assoc. reflexivity.
-  Qed.
-End Stream.
-Print Assumptions run_spec.
+  (* observables *)
+  Definition batches (lines : list line) : list (list line) := emitted (stream lines).
+  Definition invalid_count (lines : list line) : nat := invalid (stream lines).
+  Definition checkpoints (lines : list line) : list table := ckpts (stream lines).
+  Definition all_rows (lines : list line) : list row := acc (stream lines).
+  Definition grouped (lines : list line) : table := agg (all_rows lines).
+End Loop.
+
+(* ---------------------------------------------------------------------------------------------------------- *)
+(* reference semantics *)
+
+(* the lines whose 1-based position k0+1, k0+2, ... is a multiple of s, in file order *)
+Fixpoint selected (s : N) (k0 : N) (lines : list line) : list line :=
+  match lines with
+  | [] => []
+  | l :: r => if N.eqb (N.modulo (N.succ k0) s) 0 then l :: selected s (N.succ k0) r else selected s (N.succ k0) r
+  end.
+
+(* ... of these, the well-formed ones *)
+Definition good (c : cfg) (k0 : N) (lines : list line) : list line := filter (wf c) (selected (cs c) k0 lines).
+
+(* consecutive chunks of exactly B elements, and the remainder (fewer than B) *)
+Fixpoint chunks_fuel {A} (fuel B : nat) (l : list A) : list (list A) * list A :=
+  match fuel with
+  | 0 => ([], l)
+  | S f => if B <=? length l
+           then let r := chunks_fuel f B (skipn B l) in (firstn B l :: fst r, snd r)
+           else ([], l)
+  end.
+Definition chunks {A} (B : nat) (l : list A) : list (list A) * list A := chunks_fuel (length l) B l.
+
+Definition reference_batches (c : cfg) (lines : list line) : list (list line) :=
+  let cr := chunks (cB c) (good c 0 lines) in
+  fst cr ++ (if ctail c <? length (snd cr) then [snd cr] else []).
+
+(* the same selection written with explicit positions *)
+Fixpoint number (k : N) (lines : list line) : list (N * line) :=
+  match lines with [] => [] | l :: r => (k, l) :: number (N.succ k) r end.
+
+(* incremental formulation used in the proofs: push one accepted row *)
+Definition push (B : nat) (eb : list (list line) * list line) (x : line) :=
+  let bf' := snd eb ++ [x] in
+  if B <=? length bf' then (fst eb ++ [bf'], []) else (fst eb, bf').
+
+(* ---------------------------------------------------------------------------------------------------------- *)
+(* case decoding for the harness: run-length description [(count, nfields)], ids = positions *)
+
+Fixpoint expand (segs : list (N * nat)) : list nat :=
+  match segs with [] => [] | (n, k) :: r => N.iter n (cons k) (expand r) end.
+Fixpoint number_from (k : N) (fs : list nat) : list line :=
+  match fs with [] => [] | f :: r => (k, f) :: number_from (N.succ k) r end.
+Definition decode_lines (segs : list (N * nat)) : list line := number_from 1 (expand segs).
